@@ -155,7 +155,7 @@ def seeds(argv):
         else:
             env = dict(os.environ)
             env["S4SIM_REPO"] = copy
-            env["S4SIM_TARGET"] = os.path.join(build.VERIF, "target", "seeds")
+            env["S4SIM_TARGET"] = os.path.join(build.VERIF, "target", os.environ.get("S4SIM_SEEDS_TARGET", "seeds"))   # (shards of this selftest may run side by side, each with its own build directory)
             env["S4SIM_NO_EVIDENCE"] = "1"
             t0 = time.time()
             r = subprocess.run([sys.executable, "-B", os.path.join(build.VERIF, "sim", "main.py"), prop, "quick"], env=env,
